@@ -43,8 +43,8 @@ __CPROVER_assigns(tnum, self->m_workers.size, nv_tnum_at_g) \
 __CPROVER_loop_invariant(tnum <= n_workers && self->m_workers.size == tnum && (nv_g < tnum ==> nv_tnum_at_g == nv_g)) \
 __CPROVER_decreases(n_workers - tnum)
 
-/* pool_t::~pool_t(): stop is set with the queue mutex held, the mutex is released before the workers are notified
- * and joined (a join with the mutex held can never return: the workers need it to see the stop), every thread is
+/* pool_t::~pool_t(): stop is set with the queue mutex held, the workers are notified, the mutex is released before they are
+ * joined (a join with the mutex held can never return: the workers need it to see the stop), every thread is
  * joined exactly once (stated at the ghost position nv_g). */
 _Bool nv_stop_set_locked, nv_notified_d; uint64_t nv_g_joins, nv_joins;
 /* `m_queue.m_stop = true` (printed through the spec's stop_write_hook so that the lock state at the write is visible) */
@@ -56,7 +56,6 @@ static _Bool nv_set_stop(_Bool* stop, _Bool v)
 static void nv_notify_all_d(struct nv_cond* c, struct nv_pool* self)
 {
   __CPROVER_assert(self->m_queue.m_stop, "destructor: the workers are notified after stop was set");
-  __CPROVER_assert(!nv_mutex_held, "destructor: the mutex is released before notifying");
   nv_notified_d = 1;
 }
 struct nv_thread { uint64_t pos; };       /* std::thread: identified by its position in m_threads */
